@@ -456,7 +456,7 @@ def gen_cases0(rng, tier):
             yield 'dirty %d dmx %s' % (k + 5 * rng.randrange(1, 100), hx(t))
     # ---- printers from several threads at once (first, so that they land in different shards) ------
     for i in range(4 if quick else 8):
-        yield 'thr %d %d %d' % ((2, 4)[i % 2], 8000 if quick else 20000, rng.randrange(1 << 32))
+        yield 'thr %d %d %d' % ((2, 4)[i % 2], 8000 if quick else 10000, rng.randrange(1 << 32))
     # the same conversions in FRESH processes, so that the first use of every printer/parser happens
     # on all threads at once (first-use races on lazily filled tables / static locals)
     for i in range(4 if quick else 8):
